@@ -28,6 +28,11 @@ type Check struct {
 	Run func(c *Case)
 	// Floors returns minimum counter values the merged run must reach.
 	Floors func(tier string) map[string]int
+	// MountFloors are floors on counters of the kernel-mount drivers (B, C). They
+	// apply only when those drivers ran (counter kmount_unavailable == 0): a
+	// sandbox without /dev/fuse still decides the property with driver A, and the
+	// evidence says that the mount drivers were unavailable.
+	MountFloors func(tier string) map[string]int
 	// EvalCounter names the counter reported as coverage.evaluations
 	// (default: number of completed cases).
 	EvalCounter string
